@@ -1,5 +1,6 @@
 import Ptn.C02.Model
 import Ptn.C02.TTN
+import Ptn.C02.Composite
 /-! Line-protocol handler for the C02 model (core Lean only).
 
   nodeseq <op> <op> …      Node machine, starting from an unlinked node.  Answer: one field per op
@@ -18,6 +19,18 @@ import Ptn.C02.TTN
           contract:<id1>:<id2>:<new>   split:<id>:<outspec>:<inspec>:<out_id>:<in_id>:<bond_dim>
           ident:<child>:<parent>:<new>   rename:<new>:<old>   rtp:<id>:<perm|none>   lbc:<id1>:<id2>
     axes = `<label>.<dim>,…`; spec = `<parent|->/<children>/<open legs>/<r|n>`
+    composite ops (same answer format, one state per op):
+          link:<a>:<b>:<link_id>:<bond>       OneSiteTDVP._update_link(a, b)
+          twosite:<a>:<b>:<two_site_id>:<bond> TwoSiteTDVP._update_two_site_nodes(a, b)
+          move:<a>:<b>:<r_id>:<bond|auto>     split_qr_contract_r_to_neighbour(a, b) (canonical form / centre move);
+                                              auto = min(product of a's other dimensions, old bond) (reduced QR)
+          csplit:<a>:<b>:<contr_id>:<bond>    svd_truncation.contract_and_split_with_parent(a, b)
+          rectrunc:<c>=<k>,…                  recursive_truncation between its canonicalisations; <k> = bond
+                                              dimension kept on the edge above node <c> (default 1); temporary
+                                              identifiers are chosen by the model (beyond all identifiers in use)
+
+  rectrunc <op> <op> …     like `hist`, but only the state after the LAST op is returned (build the network with
+                           root:/child: ops, optionally move:… for canonical_form, end with rectrunc:…)
 -/
 namespace Ptn.C02
 
@@ -116,6 +129,16 @@ def showSpec (l : TTN.LegSpec) : String :=
 inductive HOp where
   | op (o : TOp)
   | lbc (a b : Id)
+  | link (a b l bd : Nat)
+  | twosite (a b ts bd : Nat)
+  | move (a b r bd : Nat)
+  | csplit (a b c bd : Nat)
+  | rectrunc (ks : List (Nat × Nat))
+
+def parse4 (a b c d : String) : Option (Nat × Nat × Nat × Nat) :=
+  match a.toNat?, b.toNat?, c.toNat?, d.toNat? with
+  | some w, some x, some y, some z => some (w, x, y, z)
+  | _, _, _, _ => none
 
 def parseHOp (tok : String) : Option HOp :=
   match tok.splitOn ":" with
@@ -153,6 +176,15 @@ def parseHOp (tok : String) : Option HOp :=
     match a.toNat?, b.toNat? with
     | some x, some y => some (.lbc x y)
     | _, _ => none
+  | ["link", a, b, c, d] => (parse4 a b c d).map (fun q => .link q.1 q.2.1 q.2.2.1 q.2.2.2)
+  | ["twosite", a, b, c, d] => (parse4 a b c d).map (fun q => .twosite q.1 q.2.1 q.2.2.1 q.2.2.2)
+  | ["move", a, b, c, d] =>
+    -- bond `auto` (encoded as 0, never a valid dimension): the reduced-QR dimension is computed
+    if d = "auto" then (parse4 a b c "0").map (fun q => .move q.1 q.2.1 q.2.2.1 0)
+    else if d.toNat? = some 0 then none
+    else (parse4 a b c d).map (fun q => .move q.1 q.2.1 q.2.2.1 q.2.2.2)
+  | ["csplit", a, b, c, d] => (parse4 a b c d).map (fun q => .csplit q.1 q.2.1 q.2.2.1 q.2.2.2)
+  | ["rectrunc", ks] => (parsePairs ks).map HOp.rectrunc
   | _ => none
 
 def showTTNNode (t : TTN) (e : Id × NodeS) : String :=
@@ -168,6 +200,16 @@ def showTTN (t : TTN) : String :=
   let tk := (t.tensors.map (·.1)).mergeSort (fun a b => a ≤ b)
   ";".intercalate (s!"root={showOptId t.root}" :: s!"T={showList tk}" :: ns.map (showTTNNode t))
 
+/-- Bond dimension of a reduced QR decomposition of node `a` towards its neighbour `b`:
+    `min(product of the other leg dimensions, dimension of the leg to b)`. -/
+def reducedBond (t : TTN) (a b : Id) : Option Nat := do
+  let node ← dget t.nodes a
+  let i ← node.neighbourIndex b
+  let sh := node.shape
+  let n ← sh[i]?
+  let m := (sh.eraseIdx i).foldl (· * ·) 1
+  some (min m n)
+
 def runHist (ops : List HOp) : String :=
   let r := ops.foldl (fun (acc : TTN × List String) op =>
     match op with
@@ -175,11 +217,24 @@ def runHist (ops : List HOp) : String :=
       match acc.1.legsBeforeCombination a b with
       | some (s1, s2) => (acc.1, s!"{showSpec s1}&{showSpec s2}" :: acc.2)
       | none => (acc.1, "err" :: acc.2)
-    | .op o =>
-      match acc.1.step o with
-      | some t' => (t', showTTN t' :: acc.2)
-      | none => (acc.1, "err" :: acc.2)) (TTN.empty, [])
+    | .op o => stepWith acc (acc.1.step o)
+    | .link a b l bd => stepWith acc (acc.1.linkUpdate a b l bd)
+    | .twosite a b ts bd => stepWith acc (acc.1.twoSiteUpdate a b ts bd)
+    | .move a b rr bd =>
+      if bd = 0 then stepWith acc ((reducedBond acc.1 a b).bind (acc.1.centreMove a b rr))
+      else stepWith acc (acc.1.centreMove a b rr bd)
+    | .csplit a b c bd => stepWith acc (acc.1.contractSplit a b c bd)
+    | .rectrunc ks =>
+      stepWith acc (acc.1.recursiveTruncation (fun c =>
+        match ks.find? (fun e => e.1 == c) with
+        | some e => e.2
+        | none => 1))) (TTN.empty, [])
   "|".intercalate r.2.reverse
+where
+  stepWith (acc : TTN × List String) (res : Option TTN) : TTN × List String :=
+    match res with
+    | some t' => (t', showTTN t' :: acc.2)
+    | none => (acc.1, "err" :: acc.2)
 
 def handle (args : List String) : String :=
   match args with
@@ -190,6 +245,14 @@ def handle (args : List String) : String :=
   | "hist" :: toks =>
     match toks.mapM parseHOp with
     | some ops => if ops.isEmpty then "bad-op" else runHist ops
+    | none => "bad-op"
+  | "rectrunc" :: toks =>
+    match toks.mapM parseHOp with
+    | some ops =>
+      if ops.isEmpty then "bad-op" else
+        match ((runHist ops).splitOn "|").getLast? with
+        | some l => l
+        | none => "bad-op"
     | none => "bad-op"
   | _ => "bad-op"
 
